@@ -39,6 +39,8 @@ NPROC = min(16, os.cpu_count() or 4)
 BAD = "( x42414443415345 )"
 NOORACLE = ("( i-2 )", "( i30 i-2 )")
 MODEL_FREE = {"life", "tls"}
+# families that run over real loopback sockets under real timing: a failure or divergence counts only if it reproduces
+REAL_TIMING = MODEL_FREE | {"socknet", "proxy"}
 CRASH = "( x4352415348 )"
 HANG = "( x48414e47 )"
 
@@ -562,11 +564,13 @@ def main():
         distinct.add(r["impl"])
         if getattr(gen, "nontrivial", None) is None or gen.nontrivial(c, r["impl"]):
             nontrivial.add(c)
-        if r["ci"] != "1" and c.split(" ", 1)[0] in MODEL_FREE and r["impl"] not in (CRASH, HANG):
+        if (r["ci"] != "1" or r["diverge"]) and c.split(" ", 1)[0] in REAL_TIMING and r["impl"] not in (CRASH, HANG):
             # real sockets and real timing: a failure only counts when the case fails again, alone, twice
             again = [run_both(prop, [c])[0] for _ in range(2)]
             if all(a["ci"] != "1" for a in again):
                 fails.append((c, again[-1]))
+            elif all(a["diverge"] for a in again):
+                diverges.append((c, again[-1]))
             else:
                 retried_ok.append(c)
         elif r["ci"] != "1":
